@@ -33,7 +33,7 @@ import (
 // reconfigures: the case's history contains configuration changes or ticks.
 func (c Case) reconfigures() bool {
 	for _, m := range c.Seq {
-		if m.Cmd == "@cfg" || m.Cmd == "@tick" {
+		if m.Cmd == "@cfg" || m.Cmd == "@tick" || m.Cmd == "@age" {
 			return true
 		}
 	}
@@ -53,6 +53,9 @@ func (c Case) slowTicks() (n int) {
 			if started {
 				n++
 			}
+			started, lead = true, false
+		case m.Cmd == "@age":
+			n++ // (always one more Tick of the running connection, see penalty.go)
 			started, lead = true, false
 		default:
 			started, lead = true, false
@@ -145,6 +148,8 @@ func (k knob) name() string {
 func (c Case) cfgNeutral() bool {
 	for _, m := range c.Seq {
 		switch m.Cmd {
+		case "@age":
+			return false // (points and records are compared with the model of expire_misbehave instead, penalty.go)
 		case "@tick":
 			if tickAhead(m) != 0 {
 				return false
